@@ -27,6 +27,7 @@ def main():
     m = re.search(r"(go test .*)$", lines[1])
     cmd = m.group(1).strip() if m else "go test -mod=mod -vet=off -count=1 ./%s" % os.path.dirname(place)
     cmd = re.sub(r"^cd \S+ && ", "", cmd)
+    cmd = re.split(r"\s{2,}\(", cmd)[0].strip()
     res = dict(seed=sid, property=prop, place=place, demo_cmd=cmd)
     wt = "/tmp/seedverify_%s" % sid
     sh(["git", "-C", "/repo", "worktree", "remove", "--force", wt])
